@@ -212,6 +212,13 @@ theorem StoreEq.persist3 {s s' : Store} (h : StoreEq s s') : StoreEq s.persist3 
     | bolt h => exact .cached hl (.bolt h)
     | cached ht hq => exact .cached hl hq
 
+theorem MapEq.fill {a b p q : GoMap} (h : MapEq a b) (hp : MapEq p q) : MapEq (mapFill a p) (mapFill b q) :=
+  ⟨MapWF_fill a p h.1, MapWF_fill b q h.2.1, fun k => by rw [mapGet_fill, mapGet_fill, hp.2.2, h.2.2]⟩
+
+theorem LayerEq.fill {F F' T T' : Layer} (hf : LayerEq F F') (ht : LayerEq T T') : LayerEq (fillLayer F T) (fillLayer F' T') :=
+  ⟨hf.1, hf.2.1, hf.2.2.1.fill ht.2.2.1, hf.2.2.2.1.fill ht.2.2.2.1,
+    (Layer.WF_fill F T hf.wf.1 ht.wf.1).2.2, (Layer.WF_fill F' T' hf.wf.2 ht.wf.2).2.2⟩
+
 theorem StoreEq.persist3Fail {s s' : Store} (h : StoreEq s s') : StoreEq s.persist3Fail s'.persist3Fail := by
   cases h with
   | memB hm hs => exact .memB hm hs
@@ -223,9 +230,7 @@ theorem StoreEq.persist3Fail {s s' : Store} (h : StoreEq s s') : StoreEq s.persi
     | level h => exact .cached hl (.level h)
     | bolt h => exact .cached hl (.bolt h)
     | @cached T T' q q' ht hq =>
-      refine .cached ?_ hq
-      have := ht.putCS hl.2.2.1 hl.2.2.2.1 hl.2.2.2.2.1 hl.2.2.2.2.2
-      exact ⟨hl.1, hl.2.1, this.2.2.1, this.2.2.2.1, this.2.2.2.2.1, this.2.2.2.2.2⟩
+      exact .cached (hl.fill ht) hq
 
 /-- a whole flush: same resulting store (up to enumeration order) and the same key count. -/
 theorem StoreEq.persist {s s' : Store} (h : StoreEq s s') : StoreEq s.persist.1 s'.persist.1 ∧ s.persist.2 = s'.persist.2 := by
